@@ -433,11 +433,9 @@ as numpy.loadtxt will not work as expected."""
                   dtype=[(np.str_('<;'), '<i8'), (np.str_(';<'), '<i8')])
 
         """
-        return numpy.ndarray(
-            shape=self.shape,
-            dtype=[(key, self.dtype) for key in self.keys],
-            buffer=self.data,
-        )
+        # a plain view keeps the strides: re-wrapping the buffer would read a
+        # transposed (non C-contiguous) array in the wrong element order.
+        return numpy.ndarray.view(self, numpy.ndarray)
 
     def isconstant(self) -> bool:
         """
